@@ -124,9 +124,12 @@ example :
     eval sites (PermissionSet.forbid [] PRINT) 10 (.thunk (.wrap [.lit] (.nat d [.lit])) 3) [] =
       (.viol "print", [Entry.guard d PRINT false]) := by decide
 
-/- … and with the default permissions the same program writes (three calls, two writer tokens each) -/
+/- … and with the default permissions the same program writes (three calls; how many writer tokens a call has is
+   a matter of how the source spells the write — two `stdout` uses, or one call of a helper — so only "it writes,
+   and each of the three calls writes equally often" is stated) -/
 example :
     let d := sites.findIdx (fun s => s.name == "display")
-    countKind .writer (eval sites [] 10 (.thunk (.wrap [.lit] (.nat d [.lit])) 3) []).2 = 6 := by decide
+    let n := countKind .writer (eval sites [] 10 (.thunk (.wrap [.lit] (.nat d [.lit])) 3) []).2
+    0 < n ∧ n % 3 = 0 := by decide
 
 end XrayModel.C11
